@@ -28,6 +28,12 @@ func main() {
 		runK2(r, n)
 	case "kver":
 		runKver(r, n)
+	case "kqid":
+		runKqid(r, n)
+	case "kmode":
+		runKmode(r, n)
+	case "kmapc":
+		runKmapc(r, n)
 	case "kchunk":
 		runKchunk(r, n)
 	case "kneg":
